@@ -36,6 +36,11 @@ def group_of(key):
     return None
 
 
+def short_key(k):
+    """key with the module paths of its types dropped: `<ser::flavors::Cobs<B> as ->::try_new` -> `<Cobs<B> as ->::try_new`"""
+    return re.sub(r"\b(?:[a-z_][a-z0-9_]*::)+(?=[A-Z<&\[(])", "", k)
+
+
 def specified(f):
     """functions whose behaviour is specified one by one: the public API and trait methods.  Private helpers are inlined into them."""
     if "{closure" in f.canon:
@@ -90,10 +95,16 @@ def check_group2(run, rule, F, crate, group, expect, only=None, what=None):
         if only and not only(key):
             continue
         f = fns.get(key)
+        if f is None and key.startswith("<"):
+            # the implementing type may have moved to another (private) module behind a re-export: same type name, trait and method
+            cands = [g for g in crate.fns if specified(g) and short_key(summ.fn_key(g)) == short_key(key) and summ.fn_key(g) not in expect.get(group, {})]
+            if len(cands) == 1:
+                f = cands[0]
+                run.note("%s is now %s (type moved between modules)" % (key, summ.fn_key(f)))
         if f is None:
             run.bad(rule, key, "specified function not found in the analysed crate (public API or trait method renamed or removed?)")
             continue
-        summ2.check(run, rule, f, want, F, what=what, renames=ren, hyps=invariants_for(f))
+        summ2.check(run, rule, f, want, F, what=what, renames=ren, hyps=invariants_for(f), key=key)
         n += 1
     for key, f in sorted(fns.items()):
         if only and not only(key):
